@@ -55,7 +55,12 @@ func newDecls() *Decls {
 		"(declare-fun lz64 (Int) Int)",
 		"(declare-fun shl64 (Int Int) Int)",
 		"(declare-fun shr64 (Int Int) Int)",
+		// identity of the i-th element object of a slice backing array (byref element types):
+		// negative, injective, with inverses eref/eidx
 		"(declare-fun elemptr (Int Int) Int)",
+		"(declare-fun eref (Int) Int)",
+		"(declare-fun eidx (Int) Int)",
+		"(assert (forall ((r Int) (i Int)) (! (and (< (elemptr r i) 0) (= (eref (elemptr r i)) r) (= (eidx (elemptr r i)) i)) :pattern ((elemptr r i)))))",
 		"(define-fun godiv ((a Int) (b Int)) Int (ite (>= a 0) (ite (> b 0) (div a b) (- (div a (- b)))) (ite (> b 0) (- (div (- a) b)) (div (- a) (- b)))))",
 		"(define-fun gomod ((a Int) (b Int)) Int (- a (* b (godiv a b))))",
 		"(define-fun imin ((a Int) (b Int)) Int (ite (<= a b) a b))",
